@@ -375,3 +375,12 @@ def run(repo: Repo, rep: Report, tier: str) -> None:
                 why = f"{m.short} builds the id `{t16[:60]}`"
         rep.check(det, "C06-R16", f"{cls16} (an alias of an entity) is identified by the entity in its node id", "id derived from the entity id" if det else
                   f"{why}: fresh per use, so two reads of one entity look like two producers and are joined on one wire — the value is counted once, not twice", ssr.loc())
+
+    # ---------------- R18 --------------------------------------------------------------
+    from .shared import borrow as _borrow06b
+    _borrow06b(repo, rep, "C15", "C15-R24", "C06-R18", "a property write on an Entity parameter drives the entity that was passed, also when the call is made from inside another "
+               "function body", floor=1)
+
+    # ---------------- R17 --------------------------------------------------------------
+    from .shared import zero_is_a_value as _zero17
+    _zero17(repo, rep, "C06-R17")
